@@ -515,7 +515,7 @@ def token_queries(tier):
     maxlen = 2 if tier == "quick" else 3
     toks = [t for t in all_tokens(maxlen) if t[0] not in "1"]        # a word of these dialects cannot start with a digit
     out = []
-    per = 40
+    per = 24
     for i in range(0, len(toks), per):
         chunk = toks[i:i + per]
         out.append(("postgres", f"tokens-as-identifiers-{i // per:02d}", "select " + ", ".join(chunk) + " from tbl\n"))
@@ -798,9 +798,9 @@ def linter_runs(tier, seed):
     for d, files in groups.items():
         items = []
         for f in files:
-            # quick: 'consistent' + 2 of the 6 explicit policies, rotating with the file index; thorough: all 7
+            # quick: 2 of the 7 policies, rotating with the file index; thorough: all 7
             k = n_files
-            pols = list(E2E_POLICIES) if tier == "thorough" else ["consistent", others[k % 6], others[(k + 1 + (k // 6) % 5) % 6]]
+            pols = list(E2E_POLICIES) if tier == "thorough" else [E2E_POLICIES[k % 7], E2E_POLICIES[(k + 1 + (k // 7) % 6) % 7]]
             items.append((os.path.relpath(f, FIXTURES), _read(f), pols))
             n_files += 1
         step = 2 if tier == "quick" else 6
@@ -813,8 +813,11 @@ def linter_runs(tier, seed):
         for i in range(0, len(items), 5):
             tasks.append(("crafted", d, items[i:i + 5]))
     tq = token_queries(tier)
-    for d, label, sql in tq:
+    for qi, (d, label, sql) in enumerate(tq):
         rule_pols = policy_options("CP02") if label.startswith("tokens-") else BASIC
+        if tier == "quick" and not label.startswith("tokens-as-identifiers"):
+            # quick: every policy on the identifier templates, 2 rotating policies on the function / type / keyword templates
+            rule_pols = [rule_pols[qi % len(rule_pols)], rule_pols[(qi + 1 + (qi // len(rule_pols)) % (len(rule_pols) - 1)) % len(rule_pols)]]
         tasks.append(("tok", d, [(label, sql, list(rule_pols))]))
     tasks.sort(key=lambda t: -sum(len(s) * len(p) for _, s, p in t[2]))
     # parsing does not scale beyond ~6 concurrent processes in this sandbox (mmap/munmap heavy)
@@ -838,10 +841,11 @@ def linter_runs(tier, seed):
         "name": "C15-real-lint-fix-runs",
         "bound": (f"{agg['runs']} runs of Linter(config=FluffConfig(dialect, rules=CP01..CP05, policy)).lint_string(sql, fix=True) + fix_string(): "
                   f"{n_files} .sql fixtures of {len(groups)} dialects under {FIXTURES} (tier {tier}: seeded sample, files of at most {cap} characters, "
-                  + ("policy 'consistent' + 2 of the 6 explicit policies rotating per file" if tier == "quick" else "all 7 policies per file")
+                  + ("2 of the 7 policies per file, rotating with the file index" if tier == "quick" else "all 7 policies per file")
                   + f"), {len(CRAFTED)} crafted statements x 7 policies (quoted identifiers / strings / comments containing keywords, E'' and dollar strings, "
                   f"backtick and bracket quoting, unicode identifiers, Jinja blocks, CR LF), {len(tq)} token-template queries (strings over the alphabet of "
-                  f"length <= {2 if tier == 'quick' else 3} as identifiers / function names / type names in postgres; case patterns of real keywords) x every policy offered"),
+                  f"length <= {2 if tier == 'quick' else 3} as identifiers / function names / type names in postgres; case patterns of real keywords) x "
+                  + ("every policy on the identifier templates, 2 rotating policies on the others" if tier == "quick" else "every policy offered")),
         "rule": RULE,
         "exhaustive": False,
         "evaluations": agg["handle_calls"] + agg["e2e_compared"],
